@@ -907,7 +907,7 @@ fn undefined_in_child(srcs: &[String]) -> Vec<Option<Vec<(u32, String)>>> {
             input.push_str(&serde_json::to_string(s).unwrap());
             input.push('\n');
         }
-        let r = gv::child::run(&["--child", "undefined"], input.as_bytes(), std::time::Duration::from_secs(120));
+        let r = gv::child::run(&["--child", "undefined"], input.as_bytes(), std::time::Duration::from_secs(25));
         let (stdout, finished) = match &r {
             Exit::Ok(o) => (o.clone(), true),
             Exit::Code(_, o, _) | Exit::Signal(_, o, _) | Exit::Timeout(o) => (o.clone(), false),
@@ -944,7 +944,7 @@ fn screen(out: &mut Out, origin: &str, srcs: &[(String, String)]) -> Vec<bool> {
             input.push_str(&serde_json::to_string(s).unwrap());
             input.push('\n');
         }
-        let r = gv::child::run(&["--child", "screen"], input.as_bytes(), std::time::Duration::from_secs(120));
+        let r = gv::child::run(&["--child", "screen"], input.as_bytes(), std::time::Duration::from_secs(25));
         let (stdout, finished) = match &r {
             Exit::Ok(o) => (o.clone(), true),
             Exit::Code(_, o, _) | Exit::Signal(_, o, _) | Exit::Timeout(o) => (o.clone(), false),
@@ -962,7 +962,7 @@ fn screen(out: &mut Out, origin: &str, srcs: &[(String, String)]) -> Vec<bool> {
         }
         // classify
         let one = format!("{}\n", serde_json::to_string(&srcs[bad].1).unwrap());
-        let r2 = gv::child::run(&["--child", "front"], one.as_bytes(), std::time::Duration::from_secs(60));
+        let r2 = gv::child::run(&["--child", "front"], one.as_bytes(), std::time::Duration::from_secs(25));
         match r2 {
             Exit::Ok(_) => {
                 let what = format!(
